@@ -240,7 +240,8 @@ class Server:
             except O.Missing as e:
                 op["skip"] = "missing-input:%s" % e
                 continue
-            except (AttributeError, KeyError, IndexError, ImportError) as e:
+            except (AttributeError, KeyError, IndexError, ImportError, TypeError) as e:
+                # the constant does not exist (or not in that shape) in this tree
                 op["skip"] = "no-such-const:%s" % type(e).__name__
                 continue
             req = {"fn": op["fn"], "args": args, "kw": kw}
